@@ -618,9 +618,10 @@ H2MethodCases ==
 \* of the backend: every DATA shape (=, <, >, exact-then-excess against the declaration) x content-length lists x trailers
 InterimKinds == {"expect", "always"}
 H2InterimCases ==
-  {x \in {H2Case("ok", m, s, d, t) @@ [interim |-> i] : m \in {"POST", "GET", "PURGE"}, i \in InterimKinds,
-                                         s \in {<<>>, <<"cl:5">>, <<"cl:3">>, <<"cl:5", "cl:5">>},
-                                         d \in DataShapes, t \in {"none", "plain"}} : x.data # "es" \/ (x.tr = "none" /\ x.interim = "always")}
+  \* (not "es": a request that arrives whole is answered at once - the interim response would reach sozu together with the answer)
+  {H2Case("ok", m, s, d, t) @@ [interim |-> i] : m \in {"POST", "GET", "PURGE"}, i \in InterimKinds,
+                                                 s \in {<<>>, <<"cl:5">>, <<"cl:3">>, <<"cl:5", "cl:5">>},
+                                                 d \in DataShapes \ {"es"}, t \in {"none", "plain"}}
 H1InterimCases ==
   {H1Case("ok", m, "a", s, "valid") @@ [interim |-> i] : m \in {"POST", "GET"}, i \in InterimKinds,
         s \in {<<"cl:5">>, <<"cl:3">>, <<"te:chunked">>, <<"cl:5", "conn:close">>, <<"cl:5", "cl:3">>, <<"cl:plus">>, <<"cl:5", "te:chunked">>}}
